@@ -12,6 +12,7 @@ import (
 	"math/big"
 	"sort"
 	"strings"
+	"time"
 
 	sifapp "github.com/Sifchain/sifnode/app"
 	clp "github.com/Sifchain/sifnode/x/clp"
@@ -384,6 +385,23 @@ func (w *ammWorld) step() {
 		if rng.Chance(1, 6) {
 			minR = rng.Amount(60)
 		}
+		if rng.Chance(1, 4) {
+			// minimum placed at the exact output: what the same message credits on a discarded copy of the state
+			// (minimum 0).  One above it (or a little more) must be refused, the exact output itself accepted.
+			if y0 := w.swapDryRun(u, sent, recv, amt); y0 != nil && y0.Sign() > 0 {
+				switch rng.Intn(3) {
+				case 0:
+					minR = new(big.Int).Add(y0, big.NewInt(1))
+				case 1:
+					minR = new(big.Int).Add(y0, new(big.Int).Quo(y0, big.NewInt(int64(100+rng.Intn(900)))))
+					minR.Add(minR, big.NewInt(1))
+				}
+				if minR.Cmp(y0) > 0 {
+					w.opSwap(u, sent, recv, amt, minR)
+				}
+				minR = y0
+			}
+		}
 		w.opSwap(u, sent, recv, amt, minR)
 	case c < 80: // rewards bucket funding
 		d := w.denoms[rng.Intn(len(w.denoms))]
@@ -713,13 +731,13 @@ func (w *ammWorld) opAdd(u sdk.AccAddress, sym string, n, e *big.Int) {
 
 // removalProbe records what a removal burned and paid, for Spec.C01.payoutOK.
 type removalProbe struct {
-	w            *ammWorld
-	u            sdk.AccAddress
-	sym          string
-	P, nD, eD    *big.Int
-	units        *big.Int
-	bn, be       *big.Int
-	ok           bool
+	w         *ammWorld
+	u         sdk.AccAddress
+	sym       string
+	P, nD, eD *big.Int
+	units     *big.Int
+	bn, be    *big.Int
+	ok        bool
 }
 
 func (w *ammWorld) probeRemoval(u sdk.AccAddress, sym string) *removalProbe {
@@ -808,6 +826,23 @@ func (w *ammWorld) bankSnapshot(ctx sdk.Context) map[string]string {
 		}
 	}
 	return m
+}
+
+// swapDryRun: the amount the swap message with minimum 0 credits, measured on a copy of the state that is thrown
+// away (nil when the message fails).  Nothing is emitted.
+func (w *ammWorld) swapDryRun(u sdk.AccAddress, sent, recv string, amt *big.Int) (y *big.Int) {
+	defer func() {
+		if r := recover(); r != nil {
+			y = nil
+		}
+	}()
+	cctx, _ := w.ctx.CacheContext()
+	before := w.app.BankKeeper.GetBalance(cctx, u, recv).Amount
+	_, err := w.srv.Swap(sdk.WrapSDKContext(cctx), &clptypes.MsgSwap{Signer: u.String(), SentAsset: asset(sent), ReceivedAsset: asset(recv), SentAmount: uintOf(amt), MinReceivingAmount: sdk.ZeroUint()})
+	if err != nil {
+		return nil
+	}
+	return w.app.BankKeeper.GetBalance(cctx, u, recv).Amount.Sub(before).BigInt()
 }
 
 func (w *ammWorld) opSwap(u sdk.AccAddress, sent, recv string, amt, minR *big.Int) {
@@ -933,6 +968,44 @@ func (w *ammWorld) opEpoch() {
 	w.hook("epoch", "epoch", func() { w.app.ClpKeeper.AfterEpochEnd(w.ctx, "hour", 1) })
 }
 
+// opEpochsBegin: a block at time t whose BeginBlock runs the REAL x/epochs BeginBlocker (which calls the clp
+// hook for every epoch that ends).  Whether the rewards epoch is due is read from the stored epoch infos and the
+// stored rewards parameters before the call: if it is, the model runs its epoch payout and every epoch
+// predicate is judged as for a direct hook call; if not, nothing may change.
+func (w *ammWorld) opEpochsBegin(t time.Time) {
+	w.ctx = w.ctx.WithBlockTime(t)
+	id := w.app.ClpKeeper.GetRewardsParams(w.ctx).RewardsEpochIdentifier
+	due := false
+	for _, info := range w.app.EpochsKeeper.AllEpochInfos(w.ctx) {
+		if info.Identifier == id && info.EpochCountingStarted && !info.StartTime.After(t) && t.After(info.CurrentEpochStartTime.Add(info.Duration)) {
+			due = true
+		}
+	}
+	if due {
+		w.hook("epoch", "epoch", func() { w.app.EpochsKeeper.BeginBlocker(w.ctx) })
+		return
+	}
+	func() {
+		defer func() {
+			if r := recover(); r != nil {
+				w.halted = true
+				w.out.Emit("epoch", "panic", "epochs.idle.panic", true)
+			}
+		}()
+		w.app.EpochsKeeper.BeginBlocker(w.ctx)
+	}()
+	if !w.halted {
+		w.observe("epochs.idle")
+	}
+}
+
+// setRewardsEpoch: the epoch whose end pays the rewards buckets (stored parameter; the model has one payout op)
+func (w *ammWorld) setRewardsEpoch(id string) {
+	p := w.app.ClpKeeper.GetRewardsParams(w.ctx)
+	p.RewardsEpochIdentifier = id
+	w.app.ClpKeeper.SetRewardParams(w.ctx, p)
+}
+
 // splitProbe records, for Spec.C18.splitObservedOK, the configured weight of every pool (multiplier of the
 // stored reward period × native balance) before an EndBlocker and what the block added to the pool's
 // per-period reward counter.
@@ -959,9 +1032,9 @@ func (w *ammWorld) splitProbe() func() {
 	pools := k.GetPools(w.ctx)
 	sort.Slice(pools, func(i, j int) bool { return pools[i].ExternalAsset.Symbol < pools[j].ExternalAsset.Symbol })
 	type pw struct {
-		sym      string
-		weight   *big.Int
-		pre      *big.Int
+		sym    string
+		weight *big.Int
+		pre    *big.Int
 	}
 	var l []pw
 	for _, p := range pools {
@@ -1155,6 +1228,33 @@ func init() {
 			w.setHeight(15)
 			w.opEpoch()
 		}
+		// D23: the buckets paid through the real x/epochs BeginBlocker, rewards epoch = hour / day / week, block times
+		// stepping over hour, day and week boundaries (several epochs end in one block at a day and at a week
+		// boundary); the bucket is refilled before every block: it must be paid exactly in the blocks where the
+		// configured epoch ends, in both modes
+		for _, id := range []string{"day", "hour", "week"} {
+			for _, dist := range []bool{true, false} {
+				w := newAmmWorld(rng, out, 4, -1)
+				w.fundAll()
+				w.setDistribute(dist)
+				w.setRewardsEpoch(id)
+				w.opCreate(w.users[0], "ceth", e18(1000), e18(50))
+				w.opAdd(w.users[1], "ceth", e18(3000), e18(150))
+				t0 := time.Unix(1700000000, 0).UTC()
+				w.opEpochsBegin(t0) // the epochs start counting
+				at := t0
+				for _, d := range []time.Duration{30 * time.Minute, 31 * time.Minute, time.Hour, 22*time.Hour + time.Second, time.Second, time.Second, time.Hour, 6 * 24 * time.Hour, time.Second, time.Second, time.Second, time.Second} {
+					if w.halted {
+						break
+					}
+					at = at.Add(d)
+					w.setHeight(w.height + 1)
+					w.opBucket(w.users[2], "ceth", e18(1))
+					w.opBucket(w.users[2], "rowan", e18(4))
+					w.opEpochsBegin(at)
+				}
+			}
+		}
 		// D22: a provider record holding zero units (an add too small to mint a unit) in a pool that is then
 		// decommissioned: either the decommission is refused as a whole or every record goes with the pool
 		{
@@ -1290,13 +1390,28 @@ func init() {
 					w.cfg("feetoken " + tp.Asset + " " + tp.SwapFeeRate.BigInt().String())
 				}
 			}
+			// each route also with the minimum one above (and half a percent above) what the message would credit:
+			// refused; and with the minimum at exactly that amount: accepted
+			atMin := func(sent, recv string, amt *big.Int) {
+				if y0 := w.swapDryRun(w.users[1], sent, recv, amt); y0 != nil && y0.Sign() > 0 {
+					w.opSwap(w.users[1], sent, recv, amt, new(big.Int).Add(y0, big.NewInt(1)))
+					w.opSwap(w.users[1], sent, recv, amt, new(big.Int).Add(y0, new(big.Int).Quo(y0, big.NewInt(200))))
+					w.opSwap(w.users[1], sent, recv, amt, y0)
+				}
+			}
 			swaps := func() {
 				w.opSwap(w.users[1], "ceth", "rowan", e18(100), big.NewInt(0))
 				w.opSwap(w.users[1], "ceth", "cusdc", e18(100), big.NewInt(0))
 				w.opSwap(w.users[1], "rowan", "ceth", e18(1000), big.NewInt(0))
 				w.opSwap(w.users[1], "cusdc", "ceth", e18(1000), big.NewInt(0))
+				atMin("ceth", "cusdc", e18(10))
+				atMin("cusdc", "ceth", e18(100))
+				atMin("ceth", "rowan", e18(10))
+				atMin("rowan", "cusdc", e18(100))
 			}
 			setFees(30, map[string]int64{"ceth": 1, "rowan": 5})
+			swaps()
+			setFees(30, map[string]int64{"ceth": 100})
 			swaps()
 			setFees(100, map[string]int64{"rowan": 5})
 			swaps()
